@@ -435,6 +435,8 @@ def run(ctx, tier):
                         newk = 'cmp'
                     elif is_fmt:
                         newk = 'fmt'
+                    elif rv['k'] == 'agg' and rv.get('agg') == 'closure' and 'cmp' not in kinds:
+                        newk = 'clock'      # a closure that captures the start instant (`let expired = move || start.elapsed() > timeout`)
                     else:
                         viol.append((bi, si, 'clock-derived value used in %s' % (rv.get('op') or rv['k'])))
                         continue
